@@ -1,6 +1,7 @@
 """C20 -- correlated-k reduces to cross-sections when the k-distribution is degenerate.
 
 Under contract: absorption.contribute_ktau (5 nested loops, numba).  Lemmas DEG / RANGE over the spec."""
+import types
 import z3
 from pyvc.unit import Unit, ObjSpec, Lemma
 
@@ -182,3 +183,340 @@ def _range(c):
 
 Lemma('C20', 'transmittance_in_unit_interval', _range,
       doc='the weight-averaged exponential lies in (0,1] (so its -ln is a finite non-negative optical depth)')
+
+
+# ------------------------------------------------------------------ contribute_ktau_emission: per-point optical depths of a layer range
+def _kte_params(c):
+    rs, cs, G = c.int('rows_sigma'), c.int('cols_sigma'), c.int('ngauss')
+    return dict(startK=c.int('startK'), endK=c.int('endK'), density_offset=c.int('density_offset'),
+                sigma=c.array('sigma', (rs, cs, c.int('g_sigma'))), density=c.array('density', (c.int('len_density'),)),
+                path=c.array('path', (c.int('len_path'),)), weights=c.array('weights', (c.int('len_weights'),)),
+                ngrid=c.int('ngrid'), layer=c.int('layer'), ngauss=G)
+
+
+def kte_pre(c, v):
+    rs, cs, gs = c.Shape(v.sigma)
+    return {'sizes': c.And(rs >= 0, cs >= 0, gs >= 0), 'startK': v.startK >= 0, 'layer': 0 <= v.layer,
+            'ngrid': c.And(0 <= v.ngrid, v.ngrid <= cs), 'ngauss': c.And(0 <= v.ngauss, v.ngauss <= gs),
+            'range': c.Implies(v.startK < v.endK, c.And(v.endK + v.layer <= rs, v.endK + v.density_offset <= c.Len(v.density),
+                                                        v.startK + v.density_offset >= 0, v.endK <= c.Len(v.path)))}
+
+
+def kte_post(c, v0, v1, r):
+    hi = c.Max(v0.startK, v0.endK)
+    return {'shape': c.And(c.Shape(r)[0] == v0.ngrid, c.Shape(r)[1] == v0.ngauss),
+            'per_point_depth': c.Forall2((0, v0.ngrid), (0, v0.ngauss), lambda w, g: c.Eq(r[w, g], T(c, v0, hi, w, g)))}
+
+
+def _kte_native(c, p):
+    import numpy as np
+    from taurex.model.emission import contribute_ktau_emission
+    r = contribute_ktau_emission(p['startK'], p['endK'], p['density_offset'], np.array(p['sigma'], dtype=float), np.array(p['density'], dtype=float),
+                                 np.array(p['path'], dtype=float), np.array(p['weights'], dtype=float), p['ngrid'], p['layer'], p['ngauss'])
+    return np.asarray(r), p
+
+
+def _kte_gen(rng):
+    d = _kt_gen(rng)
+    d.pop('tau', None), d.pop('rows_tau', None), d.pop('cols_tau', None)
+    return d
+
+
+KTE = Unit(['C20', 'C02'], 'taurex.model.emission:contribute_ktau_emission', _kte_params, pre=kte_pre, post=kte_post,
+           invariants={0: kt_inv0, 1: kt_inv1, 2: kt_inv2}, gen=_kte_gen, native=_kte_native,
+           bounds=[dict(rows_sigma=2, cols_sigma=1, g_sigma=2, ngauss=2, startK=0, endK=1, density_offset=1, len_density=2, len_path=1,
+                        len_weights=2, ngrid=1, layer=1)],
+           result=lambda ex, st, v0: st.alloc(ex.c, ex.c.fresh_array('ktemp', (v0.ngrid, v0.ngauss))),
+           doc='returns t_g(w) = sum_k sigma[k+layer,w,g] path[k] density[k+off] for the layer range, per quadrature point')
+
+
+# ------------------------------------------------------------------ evaluate_emission_ktables: the emission integral with k-tables
+# I(mu, w) = B(T_0)/pi Surf(mu, w) + sum_l B(T_l)/pi (ML(l) - MD(l)),  with for the molecular (k-table) part the
+# weight-averaged exponentials  sum_g wt_g exp(-mu t_g)  of the per-point depths t_g above (ML) / above-and-including (MD)
+# layer l, times exp(-mu tau_other) for the other contributions (K2E form, C02).  Degenerate coefficients and
+# sum wt = 1 turn every weight-averaged exponential into exp(-mu t): the cross-section expression of C02 (lemma
+# degenerate_emission_factor) -- PROVIDED both branches integrate over the same layer thicknesses (model.deltaz).
+from contracts import c02 as _c02
+from pyvc.engine import AbsObj
+from pyvc.core import Arr, to_int, to_real
+EMK = 'taurex.model.emission:EmissionModel.'
+
+
+def _ek_params(c):
+    M, mol, G = c.choice('M'), c.choice('mol'), c.choice('G')
+    n, W, NG = c.int('n'), c.int('W'), c.int('NG')
+    if c.mode == 'conc':
+        import numpy as np
+        sig = [np.array(c.values['sigma%d' % k], dtype=float).reshape(n, W) for k in range(M)]
+        for k in range(M):
+            c.inputs.append(('arr', 'sigma%d' % k, ((n, W), None, 'real')))
+        contribs = [dict(__obj__='Contribution', ident=k, sigma=sig[k]) for k in range(M)]
+    else:
+        contribs = [AbsObj('Contribution', k, {}) for k in range(M)]
+    if mol:
+        contribs = contribs + [ObjSpec('AbsorptionContribution', _use_ktables=True, sigma_xsec=c.array('ksigma', (n, W, NG)),
+                                       weights=c.array('wts', (NG,)), _ngrid=W, _nlayers=n)]
+    d = dict(self=ObjSpec('EmissionModel', nLayers=n, deltaz=c.array('dz', (n,)), altitude_profile=c.array('z', (n,)), contribution_list=contribs,
+                          _clamp=c.real('clamp'), _mu_quads=c.array('muq', (G,)), _wi_quads=c.array('wq', (G,)),
+                          _pressure_profile=ObjSpec('PressureProfile', profile=c.array('P', (n,))),
+                          _temperature_profile=ObjSpec('TemperatureProfile', profile=c.array('T', (n,)))),
+             wngrid=c.array('wngrid', (W,)), return_contrib=False)
+    if c.mode == 'conc':
+        import numpy as np
+        Kb = c.constant('KBOLTZ')
+        s = d['self'].attrs
+        dens = np.array(s['_pressure_profile'].attrs['profile']) / (Kb * np.array(s['_temperature_profile'].attrs['profile']))
+        dz = s['deltaz']
+        from taurex.util.emission import black_body
+        wn = d['wngrid']
+        c.concrete_funcs = {'KAP': lambda ci, k, w: float(sig[ci][k, w] * dz[k] * dens[k]),
+                            'PL': lambda T, w: float(black_body(np.array([wn[w]], dtype=float), float(T))[0])}
+    return d
+
+
+def _ek_pre(c, v):
+    s = v.self
+    n, W, G = s.nLayers, c.Len(v.wngrid), c.Len(s._mu_quads)
+    d = {'sizes': c.And(n >= 2, W >= 1, c.Len(s.deltaz) == n, c.Len(s.altitude_profile) == n, c.Len(s._wi_quads) == G,
+                        c.Len(s._pressure_profile.profile) == n, c.Len(s._temperature_profile.profile) == n),
+         'mu': c.Forall(0, G, lambda m: c.Lt(0, s._mu_quads[m]))}
+    mol = _mol(c, v)
+    if mol is not None:
+        wts, sg = (mol['weights'], mol['sigma_xsec']) if isinstance(mol, dict) else (mol.weights, mol.sigma_xsec)
+        d['quadrature'] = c.And(c.Len(wts) >= 1, c.Shape(sg)[0] == n, c.Shape(sg)[1] == W, c.Shape(sg)[2] == c.Len(wts))
+    return d
+
+
+def _mol(c, v):
+    for x in v.self.contribution_list:
+        if (isinstance(x, dict) and x.get('__obj__') == 'AbsorptionContribution') or (hasattr(x, 'has') and x.has('_use_ktables')):
+            return x
+    return None
+
+
+class _KSpec:
+    def __init__(self, c, v0):
+        self.c, self.v0 = c, v0
+        s = v0.self
+        self.n, self.W, self.G = s.nLayers, c.Len(v0.wngrid), c.Len(s._mu_quads)
+        self.mol = _mol(c, v0)
+        self.M = len(s.contribution_list) - (1 if self.mol is not None else 0)
+        self.T = s._temperature_profile.profile
+        self.PI = c.constant('PI')
+        self.dz = s.deltaz
+        K = c.constant('KBOLTZ')
+        self.rho = lambda k: s._pressure_profile.profile[k] / (K * self.T[k])
+        self.NG = c.Len(self.mol['weights'] if isinstance(self.mol, dict) else self.mol.weights) if self.mol is not None else 0
+
+    def NM(self, lo, hi, w):
+        c = self.c
+        f = _c02.KAP(c)
+        tot = 0.0
+        for ci in range(self.M):
+            tot = tot + c.Sum(lo, hi, lambda k, ci=ci: f(ci, k, w))
+        return tot
+
+    def sig(self, k, w, g):
+        m = self.mol
+        return (m['sigma_xsec'] if isinstance(m, dict) else m.sigma_xsec)[k, w, g]
+
+    def wt(self, g):
+        m = self.mol
+        return (m['weights'] if isinstance(m, dict) else m.weights)[g]
+
+    def SK(self, lo, hi, w, g, scale=None):
+        """per-point optical depth of layers lo..hi-1 (vertical path dz, or dz*scale for the slanted surface term)"""
+        c = self.c
+        if scale is None:
+            return c.Sum(lo, hi, lambda k: self.sig(k, w, g) * self.dz[k] * self.rho(k))
+        return c.Sum(lo, hi, lambda k: self.sig(k, w, g) * (self.dz[k] * scale) * self.rho(k))
+
+    def mu(self, m):
+        return 1.0 / self.v0.self._mu_quads[m]
+
+    def surf(self, m, w):
+        c = self.c
+        mu = self.mu(m)
+        t = self.NM(0, self.n, w) * mu
+        if self.mol is not None:
+            t = t + (-c.ln(c.Sum(0, self.NG, lambda g: c.exp(-self.SK(0, self.n, w, g, scale=mu)) * self.wt(g))))
+        return c.exp(-t)
+
+    def avg(self, l, m, w, incl):
+        """sum_g wt_g exp(-mu t_g), t_g the per-point depth above layer l (incl: above and including it)"""
+        c = self.c
+        mu = self.mu(m)
+        if incl:
+            return c.Sum(0, self.NG, lambda g: c.exp((-(self.SK(l, l + 1, w, g) + self.SK(l + 1, self.n, w, g))) * mu) * self.wt(g))
+        return c.Sum(0, self.NG, lambda g: c.exp((-self.SK(l + 1, self.n, w, g)) * mu) * self.wt(g))
+
+    def LTn(self, l, w):
+        return self.NM(l + 1, self.n, w)
+
+    def DTn(self, l, w):
+        return self.NM(l, l + 1, w) + self.LTn(l, w)
+
+    def ML(self, l, m, w):
+        c = self.c
+        x = c.exp((-self.LTn(l, w)) * self.mu(m))
+        return x * self.avg(l, m, w, False) if self.mol is not None else x
+
+    def MD(self, l, m, w):
+        c = self.c
+        x = c.exp((-self.DTn(l, w)) * self.mu(m))
+        return x * self.avg(l, m, w, True) if self.mol is not None else x
+
+    def PL(self, l, w):
+        return self.c.func('PL', REAL, INT, REAL)(self.T[l], w) / self.PI
+
+    def term(self, l, m, w):
+        return self.PL(l, w) * (self.ML(l, m, w) - self.MD(l, m, w))
+
+    def layers(self, m, w, upto):
+        return self.c.Sum(0, upto, lambda l: self.term(l, m, w))
+
+    def I(self, m, w, upto=None):
+        return self.PL(0, w) * self.surf(m, w) + self.layers(m, w, self.n if upto is None else upto)
+
+
+from pyvc.core import INT, REAL
+
+
+def _ek_post(c, v0, v1, r):
+    S = _KSpec(c, v0)
+    I, mu, wq, tau = r
+    return {'shapes': c.And(c.Shape(I)[0] == S.G, c.Shape(I)[1] == S.W, c.Shape(tau)[0] == S.n, c.Shape(tau)[1] == S.W),
+            'angles': c.Forall(0, S.G, lambda m: c.And(c.Eq(mu[m, 0], 1.0 / v0.self._mu_quads[m]), c.Eq(wq[m, 0], v0.self._wi_quads[m]))),
+            'intensity': c.Forall2((0, S.G), (0, S.W), lambda m, w: c.Eq(I[m, w], S.I(m, w)))}
+
+
+def _ek_inv(c, v, v0, layer):
+    S = _KSpec(c, v0)
+    n, W, G = S.n, S.W, S.G
+    d = {'locals': c.And(v.total_layers == n, v.wngrid_size == W, c.Shape(v.tau)[0] == n, c.Shape(v.tau)[1] == W, c.Shape(v.I)[0] == G,
+                         c.Shape(v.I)[1] == W, c.Shape(v.layer_tau)[0] == 1, c.Shape(v.layer_tau)[1] == W, c.Shape(v.dtau)[0] == 1,
+                         c.Shape(v.dtau)[1] == W, c.Shape(v._mu)[0] == G, c.Shape(v._mu)[1] == 1, c.Len(v.temperature) == n, c.Len(v.dz) == n,
+                         c.Len(v.density) == n),
+         'angles': c.Forall(0, G, lambda m: v._mu[m, 0] == 1.0 / v0.self._mu_quads[m]),
+         'inputs': c.Forall(0, n, lambda l: c.And(v.temperature[l] == S.T[l], v.dz[l] == S.dz[l], v.density[l] == S.rho(l)))}
+    plain = lambda m, w: v.I[m, w] == S.I(m, w, upto=layer)
+    if getattr(c, 'assuming', False) or c.mode != 'sym' or not v.has('layer_tau_calc'):
+        d['intensity'] = c.Forall2((0, G), (0, W), plain)
+        return d
+    L = z3.simplify(layer - 1)
+
+    def G1(m, w):
+        hints = [v.layer_tau[0, w] == S.LTn(L, w), v.dtau[0, w] == S.DTn(L, w)]
+        if S.mol is not None:
+            # the per-point depths returned by contribute_ktau_emission (its contract is stated over its own arguments:
+            # sigma, the local density and dz arrays) are the documented ones (model profiles): Sigma-congruence per point g
+            cal = types.SimpleNamespace(sigma=v.sigma, path=v.dz, density=v.density, layer=0, density_offset=0)
+            own = lambda k, g: cal.sigma[k + cal.layer, w, g] * cal.path[k] * cal.density[k + cal.density_offset]
+            doc = lambda k, g: S.sig(k, w, g) * S.dz[k] * S.rho(k)
+            giv = [d['inputs'], c.And(L >= 0, layer <= n)]
+            hints += [c.ForallH(0, S.NG, lambda g: c.hint(v.k_layer[w, g] == S.SK(L + 1, n, w, g),
+                                                          c.congr(L + 1, n, lambda k: own(k, g), lambda k: doc(k, g), given=giv))),
+                      c.ForallH(0, S.NG, lambda g: c.hint(v.k_dtau[w, g] == S.SK(L, L + 1, w, g) + S.SK(L + 1, n, w, g),
+                                                          c.congr(L, L + 1, lambda k: own(k, g), lambda k: doc(k, g), given=giv),
+                                                          c.congr(L + 1, n, lambda k: own(k, g), lambda k: doc(k, g), given=giv)))]
+            hints += [c.congr(0, S.NG, lambda g: c.exp((-v.k_layer[w, g]) * v._mu[m, 0]) * S.wt(g),
+                              lambda g: c.exp((-S.SK(L + 1, n, w, g)) * S.mu(m)) * S.wt(g)),
+                      c.congr(0, S.NG, lambda g: c.exp((-v.k_dtau[w, g]) * v._mu[m, 0]) * S.wt(g),
+                              lambda g: c.exp((-(S.SK(L, L + 1, w, g) + S.SK(L + 1, n, w, g))) * S.mu(m)) * S.wt(g))]
+        Iold = v.loop_entry.I
+        h1 = v.I[m, w] == Iold[m, w] + S.term(L, m, w)          # what this iteration added is the documented layer term
+        h2 = Iold[m, w] == S.I(m, w, upto=L)                       # the invariant at the head of the iteration
+        h3 = S.layers(m, w, layer) == S.layers(m, w, L) + S.term(L, m, w)
+        hints += [h1, h2, c.pure_ground(h3, L >= 0, layer == L + 1, c.sum_step(0, layer, lambda l: S.term(l, m, w))),
+                  c.pure_ground(plain(m, w), h1, h2, h3)]           # linear combination of the three facts (no quantifiers involved)
+        return c.hint(plain(m, w), *hints, final_uses=1)
+    d['intensity'] = c.ForallH(0, G, lambda m: c.ForallH(0, W, lambda w: G1(m, w)))
+    return d
+
+
+def _ek_native(c, p):
+    import numpy as np
+    import taurex.model.emission as em
+    from taurex.model.emission import EmissionModel
+    from taurex.contributions.contribution import Contribution
+    from taurex.contributions.absorption import AbsorptionContribution
+    s = p['self']
+
+    class _M(EmissionModel):
+        nLayers = property(lambda self: self._n)
+        densityProfile = property(lambda self: self._dens)
+        temperatureProfile = property(lambda self: self._T)
+        altitudeProfile = property(lambda self: self._z)
+        usingKTables = property(lambda self: True)
+    m = _M.__new__(_M)
+    for nm in ('debug', 'info', 'warning', 'error', 'critical'):
+        setattr(m, nm, lambda *a, **k: None)
+    m._n = s['nLayers']
+    m.deltaz = np.array(s['deltaz'], dtype=float)
+    m._z = np.array(s['altitude_profile'], dtype=float)
+    m._T = np.array(s['_temperature_profile']['profile'], dtype=float)
+    m._dens = np.array(s['_pressure_profile']['profile'], dtype=float) / (c.constant('KBOLTZ') * m._T)
+    m._clamp = s['_clamp']
+    m._mu_quads, m._wi_quads = np.array(s['_mu_quads'], dtype=float), np.array(s['_wi_quads'], dtype=float)
+    lst = []
+    for d in s['contribution_list']:
+        if d.get('__obj__') == 'AbsorptionContribution':
+            cc = AbsorptionContribution.__new__(AbsorptionContribution)
+            cc._use_ktables = True
+            cc.sigma_xsec = np.array(d['sigma_xsec'], dtype=float)
+            cc.weights = np.array(d['weights'], dtype=float)
+            cc._nlayers, cc._ngrid = cc.sigma_xsec.shape[0], cc.sigma_xsec.shape[1]
+        else:
+            cc = Contribution.__new__(Contribution)
+            cc.sigma_xsec = np.array(d['sigma'], dtype=float)
+            cc._nlayers, cc._ngrid = cc.sigma_xsec.shape
+        for nm in ('debug', 'info', 'warning', 'error', 'critical'):
+            setattr(cc, nm, lambda *a, **k: None)
+        lst.append(cc)
+    m.contribution_list = lst
+    I, mu, w, tau = m.evaluate_emission_ktables(np.array(p['wngrid'], dtype=float), False)
+    return (np.asarray(I), np.asarray(mu), np.asarray(w), np.asarray(tau)), p
+
+
+def _ek_gen(rng):
+    M, mol, G = rng.randint(0, 1), rng.random() < 0.8, rng.randint(1, 2)
+    n, W, NG = rng.randint(2, 4), rng.randint(1, 3), rng.randint(1, 3)
+    dz = [rng.uniform(1e3, 1e5) for _ in range(n)]
+    z = [0.0]
+    for i in range(1, n):
+        z.append(z[-1] + 0.5 * (dz[i - 1] + dz[i]))
+    wts = [rng.uniform(0.1, 1) for _ in range(NG)]
+    d = dict(M=M, mol=mol, G=G, n=n, W=W, NG=NG, clamp=10.0, dz=dz, z=z, muq=sorted(rng.uniform(0.05, 0.95) for _ in range(G)), wq=[1.0 / G] * G,
+             P=sorted((10 ** rng.uniform(0, 5) for _ in range(n)), reverse=True), T=[rng.uniform(300, 2500) for _ in range(n)],
+             wngrid=[1000.0 * (i + 1) for i in range(W)], wts=[x / sum(wts) for x in wts],
+             ksigma=[[[10 ** rng.uniform(-31, -25) for _ in range(NG)] for _ in range(W)] for _ in range(n)])
+    for k in range(M):
+        d['sigma%d' % k] = [[10 ** rng.uniform(-31, -25) for _ in range(W)] for _ in range(n)]
+    return d
+
+
+_EK_CASES = [dict(M=M, mol=mol, G=G) for M in (0, 1) for mol in (True, False) for G in (1, 2)]
+EKT = Unit(['C20', 'C02'], EMK + 'evaluate_emission_ktables', _ek_params, pre=_ek_pre, post=_ek_post, invariants={1: _ek_inv, 2: _ek_inv, 3: _ek_inv},
+           abstract={'Contribution.contribute': _c02._k2e, 'call:black_body': _c02._abs_bb}, cases=_EK_CASES,
+           inline=['densityProfile', 'temperatureProfile', 'pressureProfile', 'altitudeProfile', 'contribute'], native=_ek_native, gen=_ek_gen,
+           bounds=[dict(n=2, W=1, NG=1), dict(n=2, W=1, NG=2)], short='EmissionModel.evaluate_emission_ktables', timeout_ms=30000,
+           doc='emission integral in k-table mode: molecular factor = weight-averaged exponential of the per-point depths (contribute_ktau / '
+               'contribute_ktau_emission by contract), other contributions as in C02; layer thicknesses = model.deltaz; 0..1 other '
+               'contributions, with/without a k-table contribution, 1..2 angles at code level')
+
+
+def _deg_emission(c):
+    """degenerate coefficients and weights summing to one: sum_g wt_g x = x  (so every weight-averaged exponential of the
+    k-table emission integral is the plain exponential of the cross-section integral)"""
+    I, R = z3.IntSort(), z3.RealSort()
+    wt = z3.Function('wt', I, R)
+    x = z3.Real('x')
+    m, G = z3.Ints('m G')
+    A = lambda n: c.Sum(0, n, lambda g: x * wt(g))
+    B = lambda n: c.Sum(0, n, lambda g: wt(g))
+    mm = z3.Int('mm')
+    return [('base', [], A(0) == x * B(0)), ('step', [m >= 0, A(m) == x * B(m)], A(m + 1) == x * B(m + 1)),
+            ('final', [z3.ForAll([mm], z3.Implies(mm >= 0, A(mm) == x * B(mm))), G >= 0, B(G) == 1], A(G) == x)]
+
+
+Lemma('C20', 'degenerate_emission_factor', _deg_emission, doc='sum_g wt_g exp(-mu t) = exp(-mu t) when the per-point depths coincide and sum wt = 1')
